@@ -5,6 +5,7 @@ package rules
 import (
 	"fmt"
 	"go/token"
+	"golang.org/x/tools/go/ssa/ssautil"
 	"sort"
 	"strings"
 
@@ -161,7 +162,70 @@ func site(call ssa.CallInstruction) string {
 
 // calls finds calls by callee name in fn, optionally filtered.
 func calls(fn *ssa.Function, names ...string) []ssa.CallInstruction {
-	return cfgx.CallsNamed(fn, names...)
+	out := cfgx.CallsNamed(fn, names...)
+	if len(out) > 0 || fn == nil {
+		return out
+	}
+	// a callee of this repository that no longer exists under that name but has
+	// exactly one namesake in its package (it changed receiver): calls of the namesake
+	var alt []string
+	for _, n := range names {
+		if !strings.Contains(n, xp) {
+			continue
+		}
+		if m := movedTo(fn.Prog, n); m != "" {
+			alt = append(alt, m)
+		}
+	}
+	if len(alt) == 0 {
+		return out
+	}
+	return cfgx.CallsNamed(fn, alt...)
+}
+
+var (
+	fnIndexProg  *ssa.Program
+	fnIndexNames map[string]bool
+	fnIndexBare  map[string][]string
+)
+
+// movedTo: name ("pkg.f" or "(*pkg.T).m") is not a function of the program, and
+// its package declares exactly one function or method with the same bare name.
+func movedTo(prog *ssa.Program, name string) string {
+	if fnIndexProg != prog {
+		fnIndexProg, fnIndexNames, fnIndexBare = prog, map[string]bool{}, map[string][]string{}
+		for f := range ssautil.AllFunctions(prog) {
+			if f.Pkg == nil || f.Parent() != nil || f.Synthetic != "" || !strings.HasPrefix(f.Pkg.Pkg.Path(), strings.TrimSuffix(xp, "/")) {
+				continue
+			}
+			full := f.String()
+			fnIndexNames[full] = true
+			k := f.Pkg.Pkg.Path() + "#" + f.Name()
+			fnIndexBare[k] = append(fnIndexBare[k], full)
+		}
+	}
+	if fnIndexNames[name] {
+		return ""
+	}
+	// split "(*path.T).m" / "(path.T).m" / "path.f"
+	core := strings.TrimPrefix(strings.TrimPrefix(name, "("), "*")
+	i := strings.LastIndex(core, ".")
+	if i < 0 {
+		return ""
+	}
+	bare := core[i+1:]
+	pkgPart := core[:i]
+	if j := strings.Index(pkgPart, ")"); j >= 0 { // path.T)
+		pkgPart = pkgPart[:j]
+		if k := strings.LastIndex(pkgPart, "."); k >= 0 {
+			pkgPart = pkgPart[:k]
+		}
+	}
+	c := fnIndexBare[pkgPart+"#"+bare]
+	if len(c) == 1 {
+		return c[0]
+	}
+	return ""
 }
 
 // argType returns the short type string of the i-th non-receiver argument,
@@ -306,6 +370,9 @@ func leavesUpTo(v ssa.Value, stop ssa.Value) []ssa.Value {
 			}
 			out = append(out, x)
 		default:
+			if cfgx.ZeroRead(x) {
+				return // the zero value, spelled (T{}).f by the normal form
+			}
 			out = append(out, x)
 		}
 	}
